@@ -32,7 +32,7 @@ FALSIFIED = [
     'invariant not satisfied', 'decreases not satisfied', 'possible arithmetic underflow/overflow',
     'possible division by zero', 'possible bit shift underflow/overflow', 'recommendation not met',
     'loop invariant not satisfied', 'failed this postcondition', 'failed precondition',
-    'possible overflow', 'possible underflow', 'index out of bounds', 'unreachable',
+    'possible overflow', 'possible underflow', 'index out of bounds', 'unreachable', 'precondition not met',
     'cannot show invariant holds', 'could not prove termination', 'termination',
     'assert_by', 'value may be out of range', 'constant may overflow', 'possible truncation',
 ]
